@@ -39,8 +39,8 @@ func runC14(c *Ctx) {
 		if !IsCall(i, "(net/http.Header).Set") {
 			return false
 		}
-		k, ok1 := ConstString(CallOf(i).Args[1])
-		v, ok2 := ConstString(CallOf(i).Args[2])
+		k, ok1 := ConstString(PArgs(CallOf(i))[1])
+		v, ok2 := ConstString(PArgs(CallOf(i))[2])
 		return ok1 && ok2 && canonicalHeaderKey(k) == key && val(v)
 	}
 	isNotCacheable := func(i ssa.Instruction) bool {
@@ -121,7 +121,7 @@ func runC14(c *Ctx) {
 			if len(as) == 1 {
 				if v, ok := LiteralField(as[0], "isAlreadyFramed"); ok {
 					call := CallResult(v, 0, bpkg+".isAlreadyFramed")
-					c.Check("C14.G", "handler:framed-flag-from-predicate", p, as[0].Pos(), call != nil && PathOf(call.Call.Args[0]) == P(h, ri), "isAlreadyFramed field = isAlreadyFramed(r)", "the already-framed flag is not isAlreadyFramed(<own request>)")
+					c.Check("C14.G", "handler:framed-flag-from-predicate", p, as[0].Pos(), call != nil && PathOf(PArgs(&call.Call)[0]) == P(h, ri), "isAlreadyFramed field = isAlreadyFramed(r)", "the already-framed flag is not isAlreadyFramed(<own request>)")
 				} else {
 					c.Bad("C14.G", "handler:framed-flag-from-predicate", p, as[0].Pos(), "isAlreadyFramed is not set: framed requests get the frame again")
 				}
@@ -152,7 +152,7 @@ func runC14(c *Ctx) {
 							return constant.MakeBool(false), true
 						}
 					}
-					if len(wh.Params) > 1 && v == ssa.Value(wh.Params[1]) {
+					if len(wh.Params) > 1 && v == ssa.Value(ParamAt(wh, 1)) {
 						return IntC(200), true
 					}
 					return nil, false
@@ -245,7 +245,7 @@ func runC14(c *Ctx) {
 				if !IsCall(i, "(net/http.Header).Del", "(net/http.Header).Set", "(net/http.Header).Add") {
 					return false
 				}
-				k, isC := ConstString(CallOf(i).Args[1])
+				k, isC := ConstString(PArgs(CallOf(i))[1])
 				if !isC {
 					return true
 				}
@@ -295,7 +295,7 @@ func runC14(c *Ctx) {
 		okLen := false
 		for _, r := range Returns(wr) {
 			if call, ok := ReturnValue(r, 0).(*ssa.Call); ok {
-				if b, ok := call.Call.Value.(*ssa.Builtin); ok && b.Name() == "len" && PathOf(call.Call.Args[0]) == P(wr, 1) {
+				if b, ok := call.Call.Value.(*ssa.Builtin); ok && b.Name() == "len" && PathOf(PArgs(&call.Call)[0]) == P(wr, 1) {
 					okLen = true
 				}
 			}
@@ -356,10 +356,10 @@ func runC14(c *Ctx) {
 			cands = append(cands, Conjuncts(ReturnValue(r, 0), 0)...)
 			for _, cand := range cands {
 				if call := CallResult(cand, 0, "strings.Contains"); call != nil {
-					s, _ := ConstString(call.Call.Args[1])
-					if g := CallResult(call.Call.Args[0], 0, "(net/http.Header).Get"); g != nil {
-						k, _ := ConstString(g.Call.Args[1])
-						okAcc = s == "text/html" && canonicalHeaderKey(k) == "Accept" && PathOf(g.Call.Args[0]) == P(f, 0)+".Header"
+					s, _ := ConstString(PArgs(&call.Call)[1])
+					if g := CallResult(PArgs(&call.Call)[0], 0, "(net/http.Header).Get"); g != nil {
+						k, _ := ConstString(PArgs(&g.Call)[1])
+						okAcc = s == "text/html" && canonicalHeaderKey(k) == "Accept" && PathOf(PArgs(&g.Call)[0]) == P(f, 0)+".Header"
 					}
 				}
 			}
@@ -369,7 +369,7 @@ func runC14(c *Ctx) {
 	if f := c.need(p, "C14.T", "agent/banner.isFrameableHTMLResponse"); f != nil {
 		env := func(st int64) Env {
 			return func(v ssa.Value) (constant.Value, bool) {
-				if v == ssa.Value(f.Params[0]) {
+				if v == ssa.Value(ParamAt(f, 0)) {
 					return IntC(st), true
 				}
 				return nil, false
@@ -395,7 +395,7 @@ func runC14(c *Ctx) {
 		keys := map[string]bool{}
 		EachInstr(f, func(i ssa.Instruction) {
 			if IsCall(i, "strings.Contains", "strings.HasPrefix", "strings.EqualFold") {
-				if s, ok := ConstString(CallOf(i).Args[1]); ok {
+				if s, ok := ConstString(PArgs(CallOf(i))[1]); ok {
 					consts[s] = true
 				}
 			}
@@ -406,7 +406,7 @@ func runC14(c *Ctx) {
 			}
 			// the substrings handed to a new search helper (anyValueContains(values, "text/html", …))
 			if h := syncHelperCallee(i); h != nil && i.Parent() == f {
-				for _, a := range CallOf(i).Args {
+				for _, a := range PArgs(CallOf(i)) {
 					if s, ok := ConstString(a); ok {
 						consts[s] = true
 					}
@@ -428,7 +428,7 @@ func runC14(c *Ctx) {
 				}
 			}
 			if IsCall(i, "(net/http.Header).Get", "(net/http.Header).Values") {
-				if s, ok := ConstString(CallOf(i).Args[1]); ok {
+				if s, ok := ConstString(PArgs(CallOf(i))[1]); ok {
 					keys[canonicalHeaderKey(s)] = true
 				}
 			}
@@ -453,7 +453,7 @@ func runC14(c *Ctx) {
 			if !ok || CalleeName(call.Common()) != "strings.Contains" {
 				return
 			}
-			s, _ := ConstString(call.Call.Args[1])
+			s, _ := ConstString(PArgs(&call.Call)[1])
 			blk := ifi.Block().Succs[trueSucc]
 			for _, in := range blk.Instrs {
 				if r, ok := in.(*ssa.Return); ok {
@@ -483,7 +483,7 @@ func runC14(c *Ctx) {
 				return
 			}
 			if g := CallResult(bo.X, 0, "(net/http.Header).Get"); g != nil {
-				k, _ := ConstString(g.Call.Args[1])
+				k, _ := ConstString(PArgs(&g.Call)[1])
 				pairs[canonicalHeaderKey(k)] = s
 			}
 		})
@@ -518,8 +518,8 @@ func runC14(c *Ctx) {
 	} else if f := c.need(p, "C14.T", "agent/banner.setNotCacheable"); f != nil {
 		got := map[string]string{}
 		for _, call := range Calls(f, "(net/http.Header).Set") {
-			k, _ := ConstString(CallOf(call).Args[1])
-			v, _ := ConstString(CallOf(call).Args[2])
+			k, _ := ConstString(PArgs(CallOf(call))[1])
+			v, _ := ConstString(PArgs(CallOf(call))[2])
 			got[canonicalHeaderKey(k)] = v
 		}
 		c.Check("C14.T", "setNotCacheable:constants", p, f.Pos(), strings.Contains(got["Cache-Control"], "no-store") && strings.Contains(got["Cache-Control"], "no-cache") && got["Pragma"] == "no-cache", "Cache-Control: no-cache, no-store, …; Pragma: no-cache", fmt.Sprintf("setNotCacheable sets %v", got))
@@ -529,8 +529,8 @@ func runC14(c *Ctx) {
 	} else if f := c.need(p, "C14.T", "agent/banner.setXFrameOptionsSameOrigin"); f != nil {
 		ok := false
 		for _, call := range Calls(f, "(net/http.Header).Set") {
-			k, _ := ConstString(CallOf(call).Args[1])
-			v, _ := ConstString(CallOf(call).Args[2])
+			k, _ := ConstString(PArgs(CallOf(call))[1])
+			v, _ := ConstString(PArgs(CallOf(call))[2])
 			if canonicalHeaderKey(k) == "X-Frame-Options" && strings.EqualFold(v, "sameorigin") {
 				ok = true
 			}
@@ -548,7 +548,7 @@ func runC14(c *Ctx) {
 		cl := cls[0]
 		var test *ssa.Call
 		for _, call := range Calls(cl, "strings.Contains") {
-			if s, ok := ConstString(CallOf(call).Args[1]); ok && s == "html" {
+			if s, ok := ConstString(PArgs(CallOf(call))[1]); ok && s == "html" {
 				test = call.(*ssa.Call)
 			}
 		}
@@ -557,10 +557,10 @@ func runC14(c *Ctx) {
 		} else {
 			// the tested string is the response's Content-Type
 			okCT := false
-			SliceBack(test.Call.Args[0], func(v ssa.Value) bool {
+			SliceBack(PArgs(&test.Call)[0], func(v ssa.Value) bool {
 				if g, ok := v.(*ssa.Call); ok && CalleeName(g.Common()) == "(net/http.Header).Get" {
-					k, _ := ConstString(g.Call.Args[1])
-					if canonicalHeaderKey(k) == "Content-Type" && PathOf(g.Call.Args[0]) == P(cl, 0)+".Header" {
+					k, _ := ConstString(PArgs(&g.Call)[1])
+					if canonicalHeaderKey(k) == "Content-Type" && PathOf(PArgs(&g.Call)[0]) == P(cl, 0)+".Header" {
 						okCT = true
 					}
 				}
@@ -577,12 +577,12 @@ func runC14(c *Ctx) {
 			}
 			isAlter := func(i ssa.Instruction) bool {
 				if st, ok := i.(*ssa.Store); ok {
-					if base, _, ok := FieldAddrOf(st.Addr); ok && rootIs(base, cl.Params[0]) {
+					if base, _, ok := FieldAddrOf(st.Addr); ok && rootIs(base, ParamAt(cl, 0)) {
 						return true
 					}
 				}
 				if IsCall(i, "(net/http.Header).Del", "(net/http.Header).Set", "(net/http.Header).Add") {
-					return PathOf(CallOf(i).Args[0]) == P(cl, 0)+".Header"
+					return PathOf(PArgs(CallOf(i))[0]) == P(cl, 0)+".Header"
 				}
 				if cc := CallOf(i); cc != nil && strings.HasSuffix(CalleeName(cc), ").Read") {
 					return true // consuming body bytes is an alteration too
@@ -608,7 +608,7 @@ func runC14(c *Ctx) {
 			}
 			// variadic slice must contain the original body as its last element
 			hasOrig := false
-			SliceBack(mr.Call.Args[0], func(v ssa.Value) bool {
+			SliceBack(PArgs(&mr.Call)[0], func(v ssa.Value) bool {
 				if PathOf(v) == P(cl, 0)+".Body" {
 					hasOrig = true
 				}
@@ -624,7 +624,7 @@ func runC14(c *Ctx) {
 		ix := Calls(cl, "strings.Index", "strings.IndexByte", "bytes.Index")
 		switch {
 		case len(rp) == 1 && CalleeName(CallOf(rp[0])) == "strings.Replace":
-			a := CallOf(rp[0]).Args
+			a := PArgs(CallOf(rp[0]))
 			old, ok1 := ConstString(a[1])
 			n, ok3 := ConstInt(a[3])
 			okNew := false
@@ -638,7 +638,7 @@ func runC14(c *Ctx) {
 			// index-and-slice agreement
 			bad := ""
 			for _, call := range ix {
-				src := CallOf(call).Args[0]
+				src := PArgs(CallOf(call))[0]
 				EachInstr(cl, func(i ssa.Instruction) {
 					sl, ok := i.(*ssa.Slice)
 					if !ok {
